@@ -302,10 +302,26 @@ def col_same(pos, vx, vr, vcs):
     return "(%s && %s && gp_cst[%s]==%s)" % (same("gp_x[%s]" % pos, vx), same("gp_r[%s]" % pos, vr), pos, vcs)
 
 
-inst("DuplicateCols", "DuplicateColsPS", ["x", "", "", "r", "cStatus", "rStatus", "isOptimal"],
+inst("DuplicateCols_main", "DuplicateColsPS", ["x", "", "", "r", "cStatus", "rStatus", "isOptimal"],
      [("int", "m_j"), ("int", "m_k"), (R_, "m_loJ"), (R_, "m_upJ"), (R_, "m_loK"), (R_, "m_upK"), (R_, "m_scale"), ("bool", "m_isFirst"),
       ("bool", "m_isLast"), (r"DataArray<int>", "m_perm")],
-     tier="thorough", min_obl=800,
+     tier="thorough", min_obl=800, defines={"PS_ONLY_MAIN": ""},
+     loops=[{"function": BODY, "loop": 0, "locals": ["i"],
+             "invariants": ["-1<=i && i<g_n",
+                            "(g_kc < g_n && gp_i1[g_kc] >= 0 && g_kc > i) ? " + col_same("g_kc", "v_x2", "v_r2", "v_cs2") + " : " + col_same("g_kc", "v_x", "v_r", "v_cs"),
+                            "g_a > i || " + col_same("g_a", "v_x2", "v_r2", "v_cs2")],
+             "assigns": ["i", "__CPROVER_object_whole(gp_x)", "__CPROVER_object_whole(gp_r)", "__CPROVER_object_whole(gp_cst)"],
+             "decreases": "i+1"}],
+     mutants=[              mut("swap_status", "DuplicateColsPS", "         x[m_j]       = m_loJ;\n         cStatus[m_j] = (m_loJ == m_upJ) ? SPxSolverBase<R>::FIXED : SPxSolverBase<R>::ON_LOWER;\n      }\n      else\n      {\n         x[m_j]       = m_upJ;",
+                  "         x[m_j]       = m_loJ;\n         cStatus[m_j] = (m_loJ == m_upJ) ? SPxSolverBase<R>::FIXED : SPxSolverBase<R>::ON_UPPER;\n      }\n      else\n      {\n         x[m_j]       = m_upJ;"),
+              mut("both_basic", "DuplicateColsPS", "            cStatus[m_k] = (m_loK == m_upK) ? SPxSolverBase<R>::FIXED : SPxSolverBase<R>::ON_UPPER;\n            x[m_k] = m_upK;\n            cStatus[m_j] = SPxSolverBase<R>::BASIC;",
+                  "            x[m_k] = m_upK;\n            cStatus[m_j] = SPxSolverBase<R>::BASIC;"),
+              mut("wrong_index", "DuplicateColsPS", "      x[m_j]       = m_loJ;\n      cStatus[m_j] = SPxSolverBase<R>::FIXED;", "      x[m_j]       = m_loJ;\n      cStatus[m_k] = SPxSolverBase<R>::FIXED;")])
+
+inst("DuplicateCols_perm", "DuplicateColsPS", ["x", "", "", "r", "cStatus", "rStatus", "isOptimal"],
+     [("int", "m_j"), ("int", "m_k"), (R_, "m_loJ"), (R_, "m_upJ"), (R_, "m_loK"), (R_, "m_upK"), (R_, "m_scale"), ("bool", "m_isFirst"),
+      ("bool", "m_isLast"), (r"DataArray<int>", "m_perm")],
+     tier="thorough", min_obl=300, defines={"PS_ONLY_PERM": ""},
      loops=[{"function": BODY, "loop": 0, "locals": ["i"],
              "invariants": ["-1<=i && i<g_n",
                             "(g_kc < g_n && gp_i1[g_kc] >= 0 && g_kc > i) ? " + col_same("g_kc", "v_x2", "v_r2", "v_cs2") + " : " + col_same("g_kc", "v_x", "v_r", "v_cs"),
@@ -313,11 +329,7 @@ inst("DuplicateCols", "DuplicateColsPS", ["x", "", "", "r", "cStatus", "rStatus"
              "assigns": ["i", "__CPROVER_object_whole(gp_x)", "__CPROVER_object_whole(gp_r)", "__CPROVER_object_whole(gp_cst)"],
              "decreases": "i+1"}],
      mutants=[mut("perm_dir", "DuplicateColsPS", "cStatus[cIdx] = cStatus[cIdx_new];", "cStatus[cIdx_new] = cStatus[cIdx];"),
-              mut("swap_status", "DuplicateColsPS", "         x[m_j]       = m_loJ;\n         cStatus[m_j] = (m_loJ == m_upJ) ? SPxSolverBase<R>::FIXED : SPxSolverBase<R>::ON_LOWER;\n      }\n      else\n      {\n         x[m_j]       = m_upJ;",
-                  "         x[m_j]       = m_loJ;\n         cStatus[m_j] = (m_loJ == m_upJ) ? SPxSolverBase<R>::FIXED : SPxSolverBase<R>::ON_UPPER;\n      }\n      else\n      {\n         x[m_j]       = m_upJ;"),
-              mut("both_basic", "DuplicateColsPS", "            cStatus[m_k] = (m_loK == m_upK) ? SPxSolverBase<R>::FIXED : SPxSolverBase<R>::ON_UPPER;\n            x[m_k] = m_upK;\n            cStatus[m_j] = SPxSolverBase<R>::BASIC;",
-                  "            x[m_k] = m_upK;\n            cStatus[m_j] = SPxSolverBase<R>::BASIC;"),
-              mut("wrong_index", "DuplicateColsPS", "      x[m_j]       = m_loJ;\n      cStatus[m_j] = SPxSolverBase<R>::FIXED;", "      x[m_j]       = m_loJ;\n      cStatus[m_k] = SPxSolverBase<R>::FIXED;")])
+              mut("perm_src", "DuplicateColsPS", "x[cIdx] = x[cIdx_new];", "x[cIdx] = x[cIdx];")])
 
 
 def sv_has(idx, n, i):
@@ -345,7 +357,7 @@ inst("DuplicateRows", "DuplicateRowsPS", ["", "y", "s", "", "cStatus", "rStatus"
       ("bool", "m_isLast"), ("bool", "m_fixed"), ("int", "m_nCols"), (DSV, "m_scale"), (DSV, "m_rowObj"), (r"DataArray<int>", "m_rIdxLocalOld"),
       (r"DataArray<int>", "m_perm"), (r"DataArray<bool>", "m_isLhsEqualRhs")],
      tier="thorough", min_obl=1000,
-     loops=[{"function": BODY, "loop": 0, "locals": [["i", "PERM_I"]],
+     loops=[{"function": BODY, "loop": 0, "locals": [["i", "1::1::1::i"]],
              "invariants": ["-1<=i && i<g_n2",
                             "(g_kr < g_n2 && gp_i2[g_kr] >= 0 && g_kr > i) ? " + row_same("g_kr", "v_y2", "v_s2", "v_rs3") + " : " + row_same("g_kr", "v_y", "v_s", "v_rs"),
                             "g_b > i || " + row_same("g_b", "v_y2", "v_s2", "v_rs3"),
@@ -353,16 +365,17 @@ inst("DuplicateRows", "DuplicateRowsPS", ["", "y", "s", "", "cStatus", "rStatus"
                             "g_e > i || gp_rst[g_e]==v_rs2"],
              "assigns": ["i", "__CPROVER_object_whole(gp_s)", "__CPROVER_object_whole(gp_y)", "__CPROVER_object_whole(gp_rst)"],
              "decreases": "i+1"},
-            {"function": BODY, "loop": 1, "locals": [["k", "K1"]],
+            {"function": BODY, "loop": 1, "locals": [["k", "1::2::k"]],
              "invariants": ["0<=k && k<=g_n", "g_in != 0 || " + same("gp_s[g_kr]", "v_s2")],
              "assigns": ["k", "__CPROVER_object_whole(gp_s)"], "decreases": "g_n-k"},
-            {"function": BODY, "loop": 2, "locals": [["k", "K2"], "haveSetBasis"],
+            {"function": BODY, "loop": 2, "locals": [["k", "1::3::k"], "haveSetBasis"],
              "invariants": ["0<=k && k<=g_n",
                             "haveSetBasis || %s==v_rs2" % RS_MI,
                             "!haveSetBasis || v_rs2 != %d" % BASIC,
                             "v_rs2 != %d || g_k2 >= k || %s==%d" % (BASIC, RS_P, BASIC),
                             "!(g_k2 < k && g_kc2 < k && g_k2 != g_kc2 && %s) || !%s" % (nb(RS_P), nb(RS_Q)),
                             "!(g_k2 < k && gp_i1[g_k2] != g_a && %s) || !%s" % (nb(RS_P), nb(RS_MI)),
+                            "!(g_kc2 < k && gp_i1[g_kc2] != g_a && %s) || !%s" % (nb(RS_Q), nb(RS_MI)),
                             "v_rs2 == %d || %s || (haveSetBasis && (%s || %s))" % (BASIC, nb(RS_MI), rs_cand("g_c"), rs_cand("g_d")),
                             "!(g_k2 < k && gp_i1[g_k2] != g_a && %s==%d) || %s" % (RS_P, BASIC, same("gp_y[gp_i1[g_k2]]", "gp_d1[g_k2]")),
                             "!(%s==%d && (v_rs2 != %d || %s)) || %s" % (RS_MI, BASIC, BASIC, sv_has("gp_i1", "k", "g_a"), same("gp_y[g_a]", "v_x2")),
